@@ -8,7 +8,7 @@ import random
 
 from . import tlc, ampio, goofitio
 from .c17 import judge as judge_ampgen
-from .core import Outcome, ensure_repo_on_path, finish, pmap, Machinery
+from .core import Outcome, ensure_repo_on_path, finish, pmap, Machinery, chunked
 
 PROP = "C18"
 IDS = {"K-": -321, "K+": 321, "pi+": 211, "pi-": -211, "D0": 421, "R": 113}
@@ -94,6 +94,7 @@ def build_emit(args):
     return {"prop": "C18E", "cid": cid, "line": line, "finals": list(event[1:]), "lang": lang, "obs": obs, "text": text, "code": code}
 
 
+@chunked()
 def judge_emit(cases, wd, o, what):
     tf = wd / f"trace_{len(list(wd.glob('trace_*.json')))}.json"
     tf.write_text(json.dumps([{k: v for k, v in c.items() if k not in ("cid", "text", "code")} for c in cases]))
